@@ -131,7 +131,9 @@ def gen_case(rng):
     return {"kind": "case", "start": start.isoformat(), "step": step, "n": n, "events": events, "model": rng.choice(["two_body"] * 4 + ["special_perturbations"]),
             "aware_times": rng.random() < 0.5, "visible": rng.random() < 0.5, "engine_ids": rng.choice([[1, 2], [0, 7], [7, 0], [5, 0], [0, 1], [12, 3]]),
             # names are free-form labels: the satellite / sensor that joins by an event may carry the name of an agent already present
-            "dup_names": rng.random() < 0.35}
+            "dup_names": rng.random() < 0.35,
+            # output written every m-th step: when an event takes effect does not depend on the output cadence
+            "out_mult": rng.choice([1, 1, 1, 2, 3])}
 
 
 # ---------------------------------------------------------------------------------------------
@@ -214,7 +216,7 @@ def build_cfg(case):
                 if key in ev:
                     ev[key] = ev[key] + "Z"
     cfg = sk.scenario_cfg(start, start + timedelta(seconds=(n + 2) * step), step, engines, truth_only=False, model=case.get("model", "two_body"),
-                          filter_model="two_body", events=evs, seed=7)
+                          filter_model="two_body", events=evs, seed=7, output_step=step * case.get("out_mult", 1))
     return cfg
 
 
